@@ -400,6 +400,19 @@ def opC10Run : List String → Res
     | none => bad
   | _ => bad
 
+/-- tie G: the client's `SerializeOptions` and the server's `DeserializeOptions`, both as translated from the working tree on
+    this run, the map visited in reverse insertion order: the decoder must arrive at the request's line context and modes -/
+def c12translatedOptions (quiet plain : Bool) (b a m : Int) : Bool :=
+  let ext : Go.Ext := { ext10 with fmtInt := showInt, mapOrder := List.reverse }
+  let args : Gen.ClientArgs.Args := { LContext := ⟨a, b, m⟩, Quiet := quiet, Plain := plain, Serverless := true }
+  let s := (Gen.ClientArgs.Args.SerializeOptions ext args).2
+  match Gen.Config.DeserializeOptions ext (splitOnByte COLON s) with
+  | .ok (go, ltx, none) =>
+    ltx.BeforeContext == b && ltx.AfterContext == a && ltx.MaxCount == m
+      && (go.get? (b!"quiet") == some (b!"true")) == quiet && (go.get? (b!"plain") == some (b!"true")) == plain
+      && go.get? (b!"serverless") == some (b!"true")
+  | _ => false
+
 def opC12Roundtrip : List String → Res
   | [mode, quiet, plain, before, after, maxc, invert, file, pattern] =>
     match before.toInt?, after.toInt?, maxc.toInt?, unhex file, unhex pattern with
@@ -421,7 +434,8 @@ def opC12Roundtrip : List String → Res
           | .ok r => s!"{hexOf (flagName r.flag)}|{hexOf r.pattern}" | _ => "regex-error"
         s!"{hexOf d.name}|{hexOf (d.args.getD 1 [])}|{re}|{d.ltx.before},{d.ltx.after},{d.ltx.maxc}"
       let wantModes := s!"modes={boolStr (quiet = "1")},{boolStr (plain = "1")},true"
-      { m := s!"{renderDecoded ds};{renderModes (sessionModes ds)}",
+      { m := if !c12translatedOptions (quiet = "1") (plain = "1") b a m then "TRANSLATED-OPTIONS-ROUNDTRIP-DIFFERS" else
+          s!"{renderDecoded ds};{renderModes (sessionModes ds)}",
         s := joinWith " " want ++ ";" ++ wantModes,
         g := if (streams.any (·.length ≥ 32768)) then "long-command" else if file.contains SP then "space-in-file" else "-",
         t := joinWith "," ((if pattern.contains SP then ["space"] else []) ++ (if flag = .noop then ["noop"] else [])
